@@ -122,6 +122,12 @@ func propC07(c *ctx) error {
 		{[][2]string{{"t", `<template :define="card-a">A</template><template :define="card-b">B</template><ul><li :range="_, k : ks" :insert="card-${k}">x</li></ul>`}}, "t", `<ul><li>A</li><li>B</li><li>A</li></ul>`, ""},
 		{[][2]string{{"t", `<template :define="card-a">A</template><template :define="card-b">B</template><p :range="_, k : ks" :replace="card-${k}">x</p>|<p :range="_, k : ks"><i :with="j := ${k}" :insert="${'card-'}${j}">x</i></p>`}}, "t", `ABA|<p><i>A</i></p><p><i>B</i></p><p><i>A</i></p>`, ""},
 		{[][2]string{{"t", `<template :define="card-a">A</template><ul><li :range="_, k : ks" :insert="card-${k}">x</li></ul>`}}, "t", "", "tplNotFound"},
+		// an unknown name is a template-not-found error on every kind of host, also one whose own tags are not printed
+		{[][2]string{{"t", `<t:block :insert="nope">x</t:block>`}}, "t", "", "tplNotFound"},
+		{[][2]string{{"t", `<div :insert="nope" :remove="tag">x</div>`}}, "t", "", "tplNotFound"},
+		{[][2]string{{"t", `<div :insert="${n}" :remove="all">x</div>`}}, "t", "", "tplNotFound"},
+		{[][2]string{{"t", `<t:block :replace="nope"/>`}}, "t", "", "tplNotFound"},
+		{[][2]string{{"t", `<t:block :insert="${n}">x</t:block>`}}, "t", "", "tplNotFound"},
 		// a whole FILE used as a fragment is not a definition: its content is taken as written, blank text at its start and
 		// end included (trimming applies to the content of :define elements only)
 		{[][2]string{{"t", `<pre :insert="part.html">old</pre>`}, {"part.html", "\n<b>x</b>\n"}}, "t", "<pre>\n<b>x</b>\n</pre>", ""},
